@@ -120,6 +120,9 @@ pub struct Stats {
     pub episodes: u64,
     pub ops: u64,
     pub ops_with_match: u64,
+    /// comparisons made inside composite operations (lock-step finder
+    /// calls, cross-backend calls)
+    pub inner_evals: u64,
     pub sched_steps: u64,
     pub context_switches: u64,
     pub seam_events: u64,
@@ -155,7 +158,7 @@ impl Stats {
     pub fn add(&mut self, o: &Stats) {
         macro_rules! acc { ($($f:ident),*) => { $( self.$f += o.$f; )* } }
         acc!(
-            episodes, ops, ops_with_match, sched_steps, context_switches, seam_events, ticks,
+            episodes, ops, ops_with_match, inner_evals, sched_steps, context_switches, seam_events, ticks,
             detect_runs, stale_reads_injected, stale_reads_eligible, forced_inert, needle_kills,
             sends, shares, recvs, alloc_positive_controls, lib_panics_documented,
             lib_panics_other, place_left, place_right, place_mid, notes_model_mismatch,
